@@ -173,7 +173,10 @@ pub fn unknown_name() -> BoxedStrategy<String> {
         4 => prop::sample::select(vec![
             "search", "", "x", "i", "ids", "kin", "kinds", "contents", "created_a", "created_at2", "sig2", "si",
             "pubke", "pubkeys", "tag", "tagss", "conten", "#e", "relay", "ots", "ID", "Kind", "limit", "since",
-            "until", "authors", "#", "#ee", "lim", "unti", "#_", "#[", "#1", "#`", "#^", "# "
+            "until", "authors", "#", "#ee", "lim", "unti", "#_", "#[", "#1", "#`", "#^", "# ",
+            // names of the other object kind's members, repeated members, and case variants of known names
+            "id", "pubkey", "sig", "kind", "created_at", "tags", "content",
+            "Limit", "SINCE", "Until", "IDs", "Ids", "Kinds", "Authors", "Id", "Content", "Tags", "Sig", "Pubkey", "Created_at", "#E"
         ])
         .prop_map(|s| s.to_string()),
         1 => crate::model::rich_string(6),
@@ -465,13 +468,15 @@ impl TopObject {
     pub fn count(&self, name: &str) -> usize {
         self.members.iter().filter(|(k, _)| k == name).count()
     }
+    /// the value of the member; of its LAST occurrence when the name is repeated (what serde_json::Value, JSON.parse
+    /// and Python's json report)
     pub fn get(&self, name: &str) -> Option<&Value> {
-        self.members.iter().find(|(k, _)| k == name).map(|(_, v)| v)
+        self.members.iter().rev().find(|(k, _)| k == name).map(|(_, v)| v)
     }
     pub fn raw_value_of(&self, name: &str) -> Option<&[u8]> {
         self.members
             .iter()
-            .position(|(k, _)| k == name)
+            .rposition(|(k, _)| k == name)
             .and_then(|i| self.raw_values.get(i))
             .map(|v| v.as_slice())
     }
@@ -638,7 +643,7 @@ pub struct EventView {
     pub why_not: &'static str,
     pub end: usize,
     pub has_unknown: bool,
-    /// one of the seven members occurs more than once: what "the" value is, is then implementation-defined
+    /// one of the seven members occurs more than once: the view reports the last occurrence, as the common parsers do
     pub dup_known: bool,
 }
 
